@@ -5,6 +5,7 @@ from lib import pipeline
 LEVEL = "proof"
 MODEL_FILES = ["Model/AcyclicM.v", "Model/AcyclicIO.v", "Model/GraphM.v", "Model/StableM.v", "Model/Traversal.v", "Model/AlgoBasic.v"]
 THEOREMS = []
+EXTRA_PROPS = ["C14b"]
 STREAMS = [("C14", 2000, 80000)]
 SHARD = 2000
 RELEASE_TOO = True
